@@ -105,5 +105,12 @@ func corpus() []caseInput {
 	cs = append(cs, pair("corpus:F-C03e",
 		gVsys{Rules: []gRule{ru("r1", l("IP_10.1.1.1", "g0"), l("any"), l("any"))}, Groups: []gGrp{{"g0", l("IP_10.1.1.2")}}, Addrs: A[:2]},
 		gVsys{Rules: []gRule{ru("r1", l("G0", "IP_10.1.1.1"), l("any"), l("any"))}, Groups: []gGrp{{"G0", l("IP_10.1.1.2")}}, Addrs: A[:2]}))
+	// F-C03f: a list is replaced and names a group that is to be transferred under a new name; a later
+	// rule then claims a device group for that very group, so it is never transferred
+	cs = append(cs, pair("corpus:F-C03f",
+		gVsys{Rules: []gRule{ru("r1", l("g1"), l("any"), l("tcp 80")), ru("r2", l("g3"), l("any"), l("udp 123"))},
+			Groups: []gGrp{{"g1", l("IP_10.1.1.1", "IP_10.1.1.2", "IP_10.1.1.5")}, {"g3", l("IP_10.1.1.3")}}, Addrs: A, Svcs: S},
+		gVsys{Rules: []gRule{ru("r1", l("g3"), l("any"), l("tcp 80")), ru("r2", l("g3"), l("any"), l("udp 123"))},
+			Groups: []gGrp{{"g3", l("IP_10.1.1.3", "IP_10.1.1.4")}}, Addrs: A, Svcs: S}))
 	return cs
 }
